@@ -62,6 +62,9 @@ def replay(prop, res, f, repo, index, outbase, gen, sp, max_n=3, timeout=240):
     target = ent.get('parent', unit) if '__loop' in unit else unit
     while '__loop' in target and index['functions'].get(target, {}).get('parent'):
         target = index['functions'][target]['parent']
+    m_edges = re.match(r'^(L[DU]G_\w+?)_Edges(_EIt)?__(\w+)$', target)
+    if m_edges:
+        return replay_edges(prop, res, f, repo, index, outbase, gen, sp, m_edges, max_n, timeout)
     info = classify(target)
     tent = index['functions'].get(target)
     if info is None or tent is None or tent.get('status') != 'ok' or target not in sp.contracts:
@@ -141,6 +144,61 @@ def impl_to_c(e):
     for a in reversed(parts[:-1]):
         res = '(!(%s) || (%s))' % (a.strip(), res)
     return res
+
+
+def replay_edges(prop, res, f, repo, index, outbase, gen, sp, m, max_n, timeout):
+    """edge enumeration: the natively checkable part is `no exception, every stored entry exactly once`
+    (a full traversal of every small graph compared with the adjacency lists)"""
+    info = classify(m.group(1) + '__x')
+    if info is None:
+        return False, '// no native replay driver for %s\n' % m.group(0)
+    src = '''#include "native.hpp"
+typedef %s G;
+typedef %s L;
+int main() {
+  int rc = 0; long calls = 0;
+  bg_install_handlers();
+  enumerate_graphs<G, L>(%d, 2, %s, [&](const G &g0, const std::string &history) {
+    if (rc) return;
+    snprintf(bg_last_input, sizeof bg_last_input, "%%s  then a full traversal of edges()", history.c_str());
+    ++calls;
+    bg_exc = 0;
+    std::vector<std::pair<unsigned, unsigned>> seen;
+    try { for (auto e : g0.edges()) seen.push_back({e.first, e.second}); auto b = g0.edges().begin(); auto en = g0.edges().end(); (void)(b == en); } BG_CATCH_ALL
+    std::vector<std::pair<unsigned, unsigned>> want;
+    for (size_t i = 0; i < g0.getSize(); ++i) for (auto x : g0.getOutNeighbours(i)) if (!%s || i <= x) want.push_back({(unsigned)i, x});
+    if (bg_exc != 0 || seen != want) {
+      printf("ENUMERATION WRONG ON THE REAL CODE: %%s\\n  history: %%s  exception code=%%d, %%zu entries yielded, %%zu stored\\n",
+             bg_exc ? "edges() threw" : "sequence differs from the adjacency lists", history.c_str(), bg_exc, seen.size(), want.size());
+      rc = 1;
+    }
+  });
+  printf("%%ld traversals replayed\\n", calls);
+  return rc;
+}
+''' % (info['graph'], info['cpplabel'], max_n, 'true' if info['undirected'] else 'false', 'true' if info['undirected'] else 'false')
+    cpp, exe = outbase + '.cpp', outbase + '.bin'
+    open(cpp, 'w').write(src)
+    cmd = ['g++', '-std=c++14', '-O1', '-w', '-fno-access-control', '-DBG_L=%s' % info['label'], '-I', os.path.join(repo, 'include'),
+           '-I', os.path.join(ROOT, 'shim'), '-I', gen, '-I', os.path.join(ROOT, 'contracts'), '-I', HERE, cpp, '-o', exe]
+    r = subprocess.run(cmd, stdout=subprocess.PIPE, stderr=subprocess.STDOUT, text=True)
+    header = '// native replay of %s\n// build: %s\n' % (f.get('key'), ' '.join(cmd).replace(gen, '<gen: bin/extract --out DIR>'))
+    if r.returncode != 0:
+        return False, header + '// replay did not compile:\n' + ''.join('// ' + l + '\n' for l in r.stdout.split('\n')[-20:]) + src
+    try:
+        r = subprocess.run([exe], stdout=subprocess.PIPE, stderr=subprocess.STDOUT, text=True, timeout=timeout)
+        out, code = r.stdout, r.returncode
+    except subprocess.TimeoutExpired:
+        out, code = 'TIMEOUT', 0
+    for pth in (exe, cpp):
+        try:
+            os.remove(pth)
+        except OSError:
+            pass
+    found = code != 0
+    return found, header + '// result: %s\n/* output of the replay on the real code:\n%s\n*/\n%s' % (
+        'FAILING INPUT FOUND (exit %d)' % code if found else 'no failing input among all graphs with <= %d vertices' % max_n,
+        '\n'.join(out.strip().split('\n')[-20:]), src)
 
 
 def cpp_clause(expr, label):
